@@ -1314,6 +1314,28 @@ class Interp:
         def seq(v):
             # an object whose class defines __iter__ over a stored sequence iterates that sequence
             return list(v.attrs['__iter__']) if isinstance(v, Obj) and isinstance(v.attrs.get('__iter__'), (list, tuple)) else v
+        if nm == 'where' and len(args) == 3 and all(is_num(a_) or isinstance(a_, bool) for a_ in args):
+            c_ = args[0]
+            cc = concrete(to_node(c_))
+            if cc is not None:
+                return args[1] if cc else args[2]
+            cn = to_node(c_)
+            return X.add(X.mul(cn, to_node(args[1])), X.mul(X.add(X.ONE, X.neg(cn)), to_node(args[2])))        # mask form: c a + (1 - c) b
+        if nm in ('log10', 'log2') and len(args) == 1 and is_num(args[0]):
+            return X.div(X.fn('log', to_node(args[0])), X.fn('log', X.const(10 if nm == 'log10' else 2)))
+        if nm == 'square' and len(args) == 1 and is_num(args[0]):
+            return X.mul(to_node(args[0]), to_node(args[0]))
+        if nm in ('power', 'float_power') and len(args) == 2 and all(is_num(a_) for a_ in args):
+            return self.binop(ast.Pow(), args[0], args[1], e, fr)
+        if nm == 'clip' and len(args) == 3 and all(is_num(a_) for a_ in args):
+            lo_ = X.fn('max', to_node(args[0]), to_node(args[1]))
+            return X.fn('min', lo_, to_node(args[2]))
+        if nm in ('mean', 'average') and len(args) == 1 and isinstance(args[0], (list, tuple)) and args[0]:
+            tot = 0
+            for v_ in args[0]: tot = self.binop(ast.Add(), tot, v_)
+            return self.binop(ast.Div(), tot, len(args[0]))
+        if nm == 'diff' and len(args) == 1 and isinstance(args[0], (list, tuple)):
+            return Vec([self.binop(ast.Sub(), b_, a_) for a_, b_ in zip(list(args[0]), list(args[0])[1:])])
         if nm in ('allclose', 'isclose', 'array_equal', 'array_equiv') and len(args) >= 2:
             if args[0] is args[1]:
                 return True
